@@ -375,7 +375,9 @@ func renderFamily(r *rng, nRandom int, seedBase uint64) []namedSched {
 			Seed: seedBase + uint64(i)*0x9e3779b97f4a7c15 + r.next(), Generative: true,
 			MapDen: []uint32{5, 5, 8}[r.intn(3)], MapKinds: 0b11110,
 			// ambient faults: only matter if the printer reads a clock or the environment
-			ClockDen: []uint32{0, 2, 5}[r.intn(3)], ClockKinds: 0b11110}})
+			ClockDen: []uint32{0, 2, 5}[r.intn(3)], ClockKinds: 0b11110,
+			// only matters if the printer starts goroutines of its own
+			PreemptDen: []uint32{0, 2, 4, 16}[r.intn(4)], MaxSteps: 5_000_000}})
 	}
 	return fam
 }
